@@ -147,3 +147,61 @@ void h_process_close(void)
   { __CPROVER_assert(NOTHING_HAPPENED(g0) && self->_sessions.has && SESSION_EQ(s, s0), "P2 stale timer-originated close (its condition no longer holds): ignored, session untouched"); IORA_CANARY("h_process_close: stale timer close"); }
   else { closed_exactly_once(self, &s0, w.o, &o0, &E0, &g0, C0.closeReason, C0.closeMsg, 0); IORA_CANARY("h_process_close: closed"); }
 }
+
+/* ===================== DFCC form of the core clauses =====================
+ * the tool checks the assigns AND frees clauses on every assignment / free (frame); `s` is the table entry of the witness id.
+ * __CPROVER_pointer_equals makes the table pointer an alias of s (a plain equality would not put s into CBMC's value set).
+ * --object-bits 6: a free() of an is_fresh object costs ~80 s of solver time with 10 object bits, seconds with 6 (measured). */
+void TcpEngine_closeNow_contract(TcpEngine *self, Session *s, TransportError why, const char *msg, int tlsErr)
+__CPROVER_requires(IORA_TRUE && __CPROVER_is_fresh(self, sizeof(*self)) && __CPROVER_is_fresh(s, sizeof(*s)))
+__CPROVER_requires(self->_sessions.has && __CPROVER_pointer_equals(self->_sessions.val, s) && s->id == iora_sessmap_GKEY && !s->closed)
+__CPROVER_requires(!self->_fdTags.has && !self->_cbMutex.held && !self->_sessionRwMutex.held && self->_atomicStats.sessionsCurrent >= 1)
+__CPROVER_requires(G_seq < 1000 && G_cb_calls < 1000 && G_erase_calls < 1000 && G_sslfree_calls == 0)
+__CPROVER_assigns(*s, self->_sessions.has, self->_fdTags.has, self->_cbMutex.held, self->_sessionRwMutex.held, self->_atomicStats.closed, self->_atomicStats.sessionsCurrent,
+                  G_errno, G_seq, G_ep_fd, G_ep_events, G_ep_op, G_ep_epfd, G_ep_seq, G_ep_dels, G_fdclose_calls, G_fdclose_seq, G_fdclose_fd,
+                  G_sslshut_calls, G_sslshut_seq, G_sslfree_calls, G_sslfree_seq, G_sslshut_arg, G_sslfree_arg, G_tcancel_calls, G_tcancel_tid_calls,
+                  G_cb_calls, G_cb_seq, G_cb_sid, G_cb_why, G_cb_msg, G_cb_errno, G_cb_tls, G_cb_witness_present, G_cb_stats_closed, G_cb_stats_current,
+                  G_erase_calls, G_erase_seq, G_erase_key)
+__CPROVER_frees(s)
+__CPROVER_ensures(!self->_sessions.has && G_erase_calls == __CPROVER_old(G_erase_calls) + 1)
+__CPROVER_ensures(G_cb_calls == __CPROVER_old(G_cb_calls) + (self->_cbs.onClose ? 1u : 0u))
+__CPROVER_ensures(self->_cbs.onClose ==> (G_cb_sid == iora_sessmap_GKEY && G_cb_seq > G_erase_seq && !G_cb_witness_present))
+__CPROVER_ensures(__CPROVER_was_freed(s))
+;
+void h_closeNow_dfcc(void) { TcpEngine *self; Session *s; TransportError why; const char *msg; int tlsErr; TcpEngine_closeNow(self, s, why, msg, tlsErr); IORA_CANARY("h_closeNow_dfcc: returns"); }
+
+#ifdef IORA_SEARCH
+/* SEARCH: the same functions and the same clauses on a small CONCRETE scenario (bounded; only used to obtain an input for REPLAY).
+ *   OP 0 = closeNow(s), 1 = closeNow(NULL), 2 = Close case of process();  HASCB close callback registered;  SSLON session has an SSL object;
+ *   CLOSED0 session already marked closed;  INTABLE (OP 2) the id is in the table;  ORIGIN CloseOrigin 0..3;  PENDING connectPending;
+ *   HS tlsState == Handshake;  NQ buffers in the write queue (0/1) */
+void h_search(void)
+{
+  size_t OP = nondet_size_t(), HASCB = nondet_size_t(), SSLON = nondet_size_t(), CLOSED0 = nondet_size_t(), INTABLE = nondet_size_t(), ORIGIN = nondet_size_t();
+  size_t PENDING = nondet_size_t(), HS = nondet_size_t(), NQ = nondet_size_t();
+  __CPROVER_assume(OP <= 2 && HASCB <= 1 && SSLON <= 1 && CLOSED0 <= 1 && INTABLE <= 1 && ORIGIN <= 3 && PENDING <= 1 && HS <= 1 && NQ <= 1);
+  IORA_TRUE = 1;
+  TcpEngine E = {0}; TcpEngine *self = &E;
+  Session *s = malloc(sizeof(Session)); __CPROVER_assume(s != NULL); Session z = {0}; *s = z;
+  Session *o = malloc(sizeof(Session)); __CPROVER_assume(o != NULL); *o = z; o->id = 7;
+  s->id = 7; s->fd = 1000; s->closed = CLOSED0 != 0; s->ssl = SSLON ? (SSL *)o : NULL; s->tlsMode = SSLON ? TlsMode_Client : TlsMode_None;
+  s->tlsState = HS ? TlsState_Handshake : (SSLON ? TlsState_Open : TlsState_None); s->connectPending = PENDING != 0;
+  s->wq.n = NQ; s->wq.front.lo = 0; s->wq.front.hi = NQ; s->wq.end = NQ;
+  iora_sessmap_GKEY = 7; iora_tagmap_GKEY = 1000; G_TID = 0;
+  self->_sessions.has = (OP == 2) ? (INTABLE != 0) : 1; self->_sessions.val = s; self->_fdTags.has = 1; self->_fdTags.val = malloc(1);
+  self->_cbs.onClose = HASCB != 0; self->_epollFd = 5; self->_atomicStats.sessionsCurrent = 1; self->_timerService = NULL;
+  TransportError why = TransportError_Timeout; const char *msg = "reason";
+  Command C; C.t = Cmd_Close; C.closeSid = 7; C.closeReason = why; C.closeMsg = msg; C.closeOrigin = (CloseOrigin)ORIGIN;
+  Session s0 = *s, o0 = *o; TcpEngine E0 = E; ghost_snap g0 = snap_ghosts();
+  if (OP == 0) { TcpEngine_closeNow(self, s, why, msg, 3); if (s0.closed) nothing_happened(self, s, &s0, o, &o0, &E0, &g0); else closed_exactly_once(self, &s0, o, &o0, &E0, &g0, why, msg, 3); }
+  else if (OP == 1) { TcpEngine_closeNow(self, NULL, why, msg, 3); nothing_happened(self, NULL, &s0, o, &o0, &E0, &g0); }
+  else
+  {
+    TcpEngine_process_close_case(self, &C);
+    if (!E0._sessions.has) { __CPROVER_assert(NOTHING_HAPPENED(g0) && !self->_sessions.has, "P1 unknown session id: no callback, nothing happens"); }
+    else if (s0.closed) { nothing_happened(self, s, &s0, o, &o0, &E0, &g0); }
+    else if (STALE(C.closeOrigin, s0)) { __CPROVER_assert(NOTHING_HAPPENED(g0) && self->_sessions.has && SESSION_EQ(s, s0), "P2 stale timer-originated close (its condition no longer holds): ignored, session untouched"); }
+    else { closed_exactly_once(self, &s0, o, &o0, &E0, &g0, why, msg, 0); }
+  }
+}
+#endif
